@@ -14,6 +14,8 @@ ENGINES = [
          kind_free_text="E1: crash-isolating forked children (death attributed to the exact case), RLIMIT_AS memory allowance"),
     dict(name="rustext", path="vf/rustext.py", serves_properties=["C03", "C15"],
          kind_free_text="rebuilds the PyO3 crates from the working tree (cargo --offline) and loads them ahead of stale .so files; pure-Python twin loader"),
+    dict(name="interpose", path="vf/interpose.py", serves_properties=["C07"],
+         kind_free_text="E2: Python-level syscall interposer with three policies: deterministic baton scheduler + DFS schedule explorer, crash snapshots, fault injection"),
     dict(name="cgit", path="vf/cgit.py", serves_properties=["C20", "C03"],
          kind_free_text="hermetic C git 2.39.5 subprocess oracle (differential)"),
 ]
@@ -21,6 +23,14 @@ NOTES = ("Run ./check <ID> quick|thorough from /verif.  Exit 0/1/2 = held / VIOL
          "known_findings.json lists repaired defects (status fixed, regression inputs) and open findings.")
 NOT_APPLICABLE = {}
 CHECKS = {
+    "C07": dict(
+        level="fault_enumeration",
+        engine="vf+interpose",
+        technique="stateless DFS over all interleavings of 2-3 lock-protocol actors at interposed file-system-call granularity + exhaustive single-fault injection (ENOSPC/EIO/EPERM/KeyboardInterrupt at every write/flush/fsync/chmod/rename/close event) in 18 dulwich routines; oracle = lock-ownership model over the trace + whole-file-content invariant read after every event",
+        text="All interleavings of two actors (and all with <=2 preemptions of three) running open/write*/close|abort|drop|raise programs over GitFile on one path are executed deterministically; a reader probe after every event must see the initial content or some actor's complete buffer, and no actor may remove/rename a lock file another created. Every routine that writes through the protocol (index, refs, packed-refs, symrefs, config, loose objects, pack index, commit-graph, alternates, named files) is re-run with each of its write-side events failing: every file must hold its old or complete new content and no .lock may survive once references are dropped.",
+        design_ref="DESIGN.md §4 C07, §3 E2",
+        note="interleaving granularity is the Python-level FS call (exact for dulwich: no finer shared state); POSIX semantics of the local FS; __del__-based release counts as released",
+    ),
     "C15": dict(
         level="exploration",
         engine="vf+sandbox",
